@@ -576,7 +576,7 @@ impl<'r> Gen<'r> {
                             }
                             Val::Variant(i, Box::new(Val::Unit))
                         }
-                        KeyTy::I64 => Val::Int(kvs.len() as i128),
+                        KeyTy::I64 | KeyTy::SpannedI64 => Val::Int(kvs.len() as i128),
                         KeyTy::Bool => {
                             if kvs.len() >= 2 {
                                 continue;
